@@ -199,8 +199,10 @@ def rand_admg(rng, n, dag_only=False):
     dens = rng.choice((0.3, 0.45, 0.6, 0.8))
     if dag_only:
         return C.rand_dag_order_graph(rng, n, [("D>",)], density=dens)
-    if kind < 0.35:
+    if kind < 0.2:
         return C.rand_dag_order_graph(rng, n, [("D>",), ("D>",), ("B",)], density=dens)
+    if kind < 0.5:   # many crossing collider/non-collider routes: where a node's passability depends on its predecessor
+        return C.rand_dag_order_graph(rng, n, [("D>",), ("B",), ("B",)], density=rng.choice((0.5, 0.6, 0.7)))
     if kind < 0.7:
         return C.rand_dag_order_graph(rng, n, [("D>",), ("B",), ("D>", "B")], density=dens)   # bows
     if kind < 0.85:
@@ -229,10 +231,13 @@ def gen(ctx):
     # exhaustive: inducing_path on all acyclic ADMGs, dag_to_mag on all DAGs
     nmax_ip_full = 3 if tier == "quick" else 4
     for n in range(2, nmax_ip_full + 1):
-        Q = all_queries(n, guards=True)
+        Q = all_queries(n, guards=(n < 4))
         for g in acyclic_graphs(n, C.ADMG_STATES):
             i += 1
-            yield {"kind": "ipm", "g": g, "fam": fams[i % 5] if n < 4 else ("int", "bigint", "str", "tuple")[i % 4], "Q": Q, "src": "exh-ip%d" % n}
+            c = {"kind": "ipm", "g": g, "fam": fams[i % 5] if n < 4 else ("int", "bigint", "str", "tuple")[i % 4], "Q": Q, "src": "exh-ip%d" % n}
+            if n == 4 and i % 4:
+                c["nodec"] = True      # 4-node exhaustive part: cross-check with the brute-force decider on every 4th graph
+            yield c
     if tier == "quick":
         gs = list(acyclic_graphs(4, C.ADMG_STATES))
         Q4 = all_queries(4)
@@ -248,30 +253,31 @@ def gen(ctx):
     if tier == "quick":
         gs = list(acyclic_graphs(4, DAG_STATES))
         for g in gs:
-            for L, S in rng.sample(list(ls_assignments([0, 1, 2, 3])), 6):
+            for L, S in rng.sample(list(ls_assignments([0, 1, 2, 3])), 14):
                 i += 1
                 yield {"kind": "dm", "g": g, "L": L, "S": S, "fam": fams[i % 5], "src": "smp-dm4"}
     # structured random, n = 5..7 (the order-dependent incompleteness of the unfixed DFS starts at 5)
-    N = 2500 if tier == "quick" else 30000
+    N = 2000 if tier == "quick" else 20000
     for j in range(N):
-        n = rng.choice((5, 5, 5, 6, 6, 7))
+        n = rng.choice((5, 5, 6, 6, 7, 7, 8))
         g = rand_admg(rng, n)
         if j % 3 == 0:
             g = C.shuffled_graph(rng, g)
         Q = []
         for _ in range(24):
             x, y = rng.sample(range(n), 2)
-            L, S = rand_ls(rng, [v for v in range(n) if v not in (x, y)])
+            L, S = rand_ls(rng, [v for v in range(n) if v not in (x, y)], pl=rng.choice((0.0, 0.2, 0.3, 0.5)),
+                           ps=rng.choice((0.0, 0.15, 0.3, 0.3)))
             Q.append([x, y, L, S])
         i += 1
         yield {"kind": "ipm", "g": g, "fam": fams[i % 5], "Q": Q, "src": "rnd-ip%d" % n}
-    N = 1200 if tier == "quick" else 14000
+    N = 1200 if tier == "quick" else 10000
     for j in range(N):
         n = rng.choice((5, 5, 5, 6)) if tier == "quick" else rng.choice((5, 5, 6, 6, 7))
         g = rand_admg(rng, n, dag_only=True)
         if j % 3 == 0:
             g = C.shuffled_graph(rng, g)
-        L, S = rand_ls(rng, list(range(n)), pl=rng.choice((0.2, 0.4, 0.6)), ps=rng.choice((0.0, 0.15, 0.3)))
+        L, S = rand_ls(rng, list(range(n)), pl=rng.choice((0.0, 0.2, 0.4, 0.6)), ps=rng.choice((0.0, 0.2, 0.4)))
         i += 1
         yield {"kind": "dm", "g": g, "L": L, "S": S, "fam": fams[i % 5], "src": "rnd-dm%d" % n}
 
@@ -280,18 +286,50 @@ def gen(ctx):
 SEM_MAX_N = 5      # all-subsets semantic clauses are evaluated for graphs up to this size (6 in thorough)
 
 
-def eval_chunk(ctx, cases):
-    """returns list of (single_case, (severity, kind, detail))"""
-    ev = ctx["ev"]
-    semmax = SEM_MAX_N if ctx["tier"] == "quick" else 6
-    gots = C.pmap(impl, cases, chunksize=16)
+class _Acc:
+    """evidence accumulator filled inside a worker process, merged into common.Evidence by the parent"""
+
+    def __init__(self):
+        self.n = 0
+        self.nt = set()
+        self.hist = {}
+        self.samples = []
+
+    def case(self, case, nontrivial=False):
+        import hashlib
+        import json
+        self.n += 1
+        if nontrivial:
+            self.nt.add(hashlib.sha1(json.dumps(case, sort_keys=True, default=str).encode()).hexdigest()[:16])
+        if len(self.samples) < 2:
+            self.samples.append(case)
+
+    def count(self, key, k=1):
+        self.hist[key] = self.hist.get(key, 0) + k
+
+    def merge_into(self, ev):
+        ev.evaluations += self.n
+        ev.nontrivial |= self.nt
+        for k, v in self.hist.items():
+            ev.count(k, v)
+        for c in self.samples:
+            if len(ev.samples) < 12:
+                ev.samples.append(c)
+
+
+def eval_sub(args):
+    """worker: implementation + Lean oracles + judging for a list of cases; returns (bad, acc)"""
+    cases, semmax = args
+    ev = _Acc()
+    gots = [impl(c) for c in cases]
     lines, idx = [], []
     for ci, (c, got) in enumerate(zip(cases, gots)):
         if c["kind"] == "ipm":
             for qi, (x, y, L, S) in enumerate(c["Q"]):
                 idx.append((ci, qi, len(lines)))
                 lines.append(q_line("indpath", c["g"], x, y, L, S))
-                lines.append(q_line("inddec", c["g"], x, y, L, S))
+                # `nodec`: the (proved equal) brute-force decider is skipped, the proved model decides alone
+                lines.append(q_line("inddec", c["g"], x, y, L, S) if not c.get("nodec") else "noop")
                 r = got[qi] if isinstance(got, list) else got
                 lines.append(q_line("indvalid", c["g"], x, y, L, S, " P=" + ",".join(map(str, r.get("path", []))))
                              if r.get("ans") == "T" else "noop")
@@ -307,7 +345,7 @@ def eval_chunk(ctx, cases):
             small = c["g"]["n"] <= semmax
             lines.append(dm_line("insep", c["g"], c["L"], c["S"]) if small else "noop")
             lines.append(dm_line("magsem", c["g"], c["L"], c["S"], mag_extra(got)) if small and "nodes" in got else "noop")
-    ans = C.lean_batch(lines)
+    ans = C.lean_batch(lines, jobs=1)
     bad = []
     for ci, qi, li in idx:
         c, got = cases[ci], gots[ci]
@@ -319,9 +357,11 @@ def eval_chunk(ctx, cases):
                 x, y, L, S, r = c["x"], c["y"], c["L"], c["S"], got
             single = {"kind": "ip", "g": c["g"], "x": x, "y": y, "L": L, "S": S, "fam": c.get("fam", "int"), "src": c.get("src", "")}
             model, dec, valid = ans[li], ans[li + 1], ans[li + 2]
+            if dec == "bad-op":
+                dec = model.split(":")[0]
             dom = ip_in_domain(c["g"], x, y, L, S)
             nt = dom and not adjacent(c["g"], x, y) and (dec == "T" or bool(L or S))
-            ev.case(single, nontrivial=nt, sample_every=200000)
+            ev.case(single, nontrivial=nt)
             ev.count("ip:" + ("dom:" + dec if dom else "guard"))
             ev.count("src:" + c.get("src", ""))
             ev.count("fam:" + c.get("fam", "int"))
@@ -335,13 +375,34 @@ def eval_chunk(ctx, cases):
             small = c["g"]["n"] <= semmax
             ins = parse_pairs(insep) if small and insep != "bad-op" else None
             nt = bool(c["L"] or c["S"]) and (bool(c["L"]) or " B= " not in model)
-            ev.case(single, nontrivial=nt, sample_every=20000)
+            ev.case(single, nontrivial=nt)
             ev.count("dm:" + ("sem-all-Z" if small else "structure-only"))
             ev.count("src:" + c.get("src", ""))
             ev.count("fam:" + c.get("fam", "int"))
             v = judge_dm(c, got, model, ins, sem if small and "nodes" in got else None)
         if v:
             bad.append((single, v))
+    return bad, ev
+
+
+def par_map(fn, items, jobs=None):
+    jobs = jobs or min(16, C.os.cpu_count() or 1)
+    if jobs <= 1 or len(items) <= 1:
+        return [fn(x) for x in items]
+    import multiprocessing as mp
+    with mp.get_context("fork").Pool(jobs) as pool:
+        return pool.map(fn, items, chunksize=1)
+
+
+def eval_chunk(ctx, cases):
+    """returns list of (single_case, (severity, kind, detail)); work is done in parallel workers"""
+    semmax = SEM_MAX_N if ctx["tier"] == "quick" else 6
+    step = max(1, min(200, len(cases) // 64 + 1))
+    subs = [(cases[i:i + step], semmax) for i in range(0, len(cases), step)]
+    bad = []
+    for b, acc in par_map(eval_sub, subs):
+        bad += b
+        acc.merge_into(ctx["ev"])
     return bad
 
 
@@ -416,7 +477,7 @@ def run(ctx):
     ev = ctx["ev"]
     ev.rule = ("inducing_path: every acyclic ADMG on 2-3 nodes (thorough: 2-4) over pair states {none,->,<-,<->,->+<->,<-+<->} x every "
                "ordered pair x every split of the other nodes into L/S/neither (plus guard queries with an endpoint in L or S), "
-               "quick adds a sample of the 4-node ones; random acyclic ADMGs n=5..7 (sparse/dense, bows, collider chains, shuffled "
+               "quick adds a sample of the 4-node ones; random acyclic ADMGs n=5..8 (sparse/dense, bows, collider chains, shuffled "
                "insertion order). dag_to_mag: every DAG on 1-3 nodes (thorough: 1-4) x every disjoint (L,S), random DAGs n=5..7; the "
                "all-subsets clauses (adjacency iff inseparable; m_sep(MAG,x,y,Z)=d_sep(D,x,y,Z u S) for all x,y,Z) are evaluated by "
                "Lean for n<=5 (thorough 6). Five label families; node arguments are fresh equal-but-not-identical objects. "
@@ -432,7 +493,7 @@ def run(ctx):
     if corpus:
         bad += eval_chunk(ctx, corpus)
         ev.count("src:corpus", len(corpus))
-    for ch in chunks(gen(ctx), 3000):
+    for ch in chunks(gen(ctx), 6000):
         if time.time() > ctx["deadline"] - 20:
             ev.extra["stopped_at_deadline"] = True
             break
@@ -446,7 +507,10 @@ def run(ctx):
 
 
 def replay(ctx, payload):
-    case = payload["case"]
+    case = payload.get("case") or payload.get("correspondence", {}).get("case")
+    if case is None:
+        print("nothing to replay: the payload names theorems only:", payload.get("theorems_not_checking"))
+        return 0
     drv = C.Driver()
     try:
         d = describe(case, drv)
